@@ -185,6 +185,21 @@ func TestSvsGen(t *testing.T) {
 					observe(map[string]any{"ev": "dlv", "src": b.id, "dst": a.id, "v": up.vec, "relay": true})
 					sleep(250)
 					observe(map[string]any{"ev": "adv", "dt": 250, "probe": "outdated-covered", "who": a.id})
+					// (3) what is heard during the interval is newer than the outdated vector but still one publication
+					// behind: the node must speak up at the end of the interval
+					a.sv.IncrSeqNo(a.name)
+					observe(map[string]any{"ev": "pub", "node": a.id})
+					lag := latest(a.id) // a's vector before its next publication
+					a.sv.IncrSeqNo(a.name)
+					observe(map[string]any{"ev": "pub", "node": a.id})
+					sleep(1000)
+					observe(map[string]any{"ev": "adv", "dt": 1000})
+					a.face.FeedPacket(old.wire)
+					observe(map[string]any{"ev": "dlv", "src": old.src, "dst": a.id, "v": old.vec})
+					a.face.FeedPacket(lag.wire)
+					observe(map[string]any{"ev": "dlv", "src": b.id, "dst": a.id, "v": lag.vec, "relay": true})
+					sleep(250)
+					observe(map[string]any{"ev": "adv", "dt": 250, "probe": "outdated-partly-covered", "who": a.id})
 				}
 			}
 			// settle: three lossless rounds, each node's latest vector to everybody, a periodic interval in between
